@@ -45,6 +45,7 @@ Definition table : list ((string * string * N) * cls * N) :=
    (("src/crypto/noise/mod.rs", "first_message", 11), NW, 0); (* vec_n: encoder / local value, not fed by wire bytes *)
    (("src/crypto/noise/mod.rs", "first_message", 13), NW, 0); (* cursor: encoder / local value, not fed by wire bytes *)
    (("src/crypto/noise/mod.rs", "get_remote_peer_id", 1), M, 25); (* decode: WebRTC Noise reply: model Net.webrtc_noise_reply (feature worker); payload part as kind 6 *)
+   (("src/crypto/noise/mod.rs", "get_remote_peer_id", 2), M, 25); (* from_bytes: u16::from_be_bytes of the two length bytes: model Net.webrtc_noise_reply (feature worker) *)
    (("src/crypto/noise/mod.rs", "get_remote_peer_id", 3), M, 25); (* try_from: WebRTC Noise reply: model Net.webrtc_noise_reply (feature worker); payload part as kind 6 *)
    (("src/crypto/noise/mod.rs", "get_remote_peer_id", 4), M, 25); (* parse: WebRTC Noise reply: model Net.webrtc_noise_reply (feature worker); payload part as kind 6 *)
    (("src/crypto/noise/mod.rs", "get_remote_peer_id", 5), M, 25); (* read_: WebRTC Noise reply: model Net.webrtc_noise_reply (feature worker); payload part as kind 6 *)
@@ -187,7 +188,9 @@ Definition table : list ((string * string * N) * cls * N) :=
    (("src/protocol/libp2p/kademlia/types.rs", "try_from", 3), M, 1); (* try_from: KademliaPeer::try_from: peer id (C18 model) + Multiaddr::try_from (Formats.v) *)
    (("src/protocol/mdns.rs", "new", 11), NW, 0); (* vec_n: receive buffer of constant size (C19_MDNS_BUFFER) *)
    (("src/protocol/mdns.rs", "on_inbound_response", 4), M, 24); (* parse: C19_mdns_response_sound, C19_mdns_response_count (text multiaddr parser: oracle dictionary kind 6) *)
+   (("src/protocol/mdns.rs", "parse_packet", 2), H, 24); (* from_bytes: the four 16-bit record counts of the DNS header (count check of fix F-C19a; witness corpus/C19/mdns_counts.case) *)
    (("src/protocol/mdns.rs", "parse_packet", 4), H, 24); (* parse: simple-dns Packet::parse behind the count check of fix F-C19a: oracle dictionary kind 5, allocation bound per datagram *)
+   (("src/protocol/mdns.rs", "parse_packet", 14), H, 24); (* slice: datagram.get(4..HEADER_SIZE): checked access to the header counts (fix F-C19a) *)
    (("src/protocol/mdns.rs", "start", 4), D, 24); (* parse: dispatch of one datagram: transcribed in the hook VerifMdns::on_datagram (copy of 8 lines) *)
    (("src/protocol/mdns.rs", "start", 14), D, 24); (* slice: dispatch of one datagram: transcribed in the hook VerifMdns::on_datagram (copy of 8 lines) *)
    (("src/protocol/notification/mod.rs", "on_inbound_substream", 5), M, 3); (* read_: handshake read through Substream with UnsignedVarint(max_notification_size) (kind 3 / 15; codec table) *)
